@@ -59,6 +59,11 @@ static int apply(DString *d, ref *r, opx o, char *why) {
 			free(c);
 		} break;
 		case REPLACE: {
+			if (o.pi == 3) {	/* empty search string: the model does not define a result (nothing / everywhere); it must return, and the string stays a string (checked by same() after re-reading it) */
+				d_string_replace_text_in_range(d, pos, ln, "", "XY");
+				free(r->b); r->n = strlen(d->str); r->b = malloc(r->n + 1); memcpy(r->b, d->str, r->n + 1);
+				break;
+			}
 			const char *orig = "ab"; const char *rp = o.pi % 3 == 0 ? "" : (o.pi % 3 == 1 ? "abab" : "X");
 			if (pos > L) { long dl0 = d_string_replace_text_in_range(d, pos, ln, orig, rp); if (dl0) { sprintf(why, "replacement beyond the end"); return 0; } break; }
 			size_t stop = ln == (size_t) -1 ? L : ((ln > L - pos) ? L : pos + ln);
@@ -123,7 +128,7 @@ static int bfs(int maxd, double deadline_s, int only_start) {
 		if ((head & 255) == 0) { struct timespec t; clock_gettime(CLOCK_MONOTONIC, &t); if ((t.tv_sec - t0.tv_sec) > deadline_s) { complete = 0; break; } }
 		for (int op = 0; op < NOPS; op++) for (int pi = 0; pi < NP; pi++) for (int pk = 0; pk < 6; pk++) for (int lk = 0; lk < 6; lk++) {
 			if (!usepos(op) && pk) continue; if (!uselen(op) && lk) continue; if (!usepay(op) && pi) continue;
-			if (op == REPLACE && pi > 2) continue; if (op == APPEND_C && pi > 2) continue;
+			if (op == REPLACE && pi > 3) continue; if (op == APPEND_C && pi > 2) continue;
 			if (pi == NP - 1 && op != APPEND_ARR) continue;            /* the NUL-containing payload is for the binary append path only */
 			opx o = { op, pi, pk, lk };
 			PR->h = h; PR->last = o; PR->active = 1; PR->ticks++;
